@@ -3,7 +3,9 @@
 package lsm
 
 import (
+	"expvar"
 	"fmt"
+	"time"
 
 	"github.com/feichai0017/NoKV/utils"
 )
@@ -51,9 +53,23 @@ func (s *VerifSST) VerifPrefetchIterate(prefetchBlocks int) (out []VerifEntry, e
 		}
 	}()
 	it := s.t.NewIterator(&utils.Options{IsAsc: true, PrefetchBlocks: prefetchBlocks})
-	defer func() { _ = it.Close() }()
+	defer func() {
+		_ = it.Close()
+		verifWaitPrefetchIdle()
+	}()
 	for it.Rewind(); it.Valid(); it.Next() {
 		out = append(out, verifEntryOf(it.Item().Entry()))
 	}
 	return out, nil
+}
+
+// verifWaitPrefetchIdle waits until no read-ahead task of any table iterator is
+// queued or running: the harness closes table handles by force (CloseKeep),
+// which must not happen underneath a task that outlived its iterator.
+func verifWaitPrefetchIdle() {
+	v, _ := expvar.Get("NoKV.Pool.IteratorPrefetch.Active").(*expvar.Int)
+	deadline := time.Now().Add(2 * time.Second)
+	for v != nil && v.Value() > 0 && time.Now().Before(deadline) {
+		time.Sleep(50 * time.Microsecond)
+	}
 }
